@@ -13,11 +13,13 @@ REQUIRED = {
     "quick": {"event_records_matched": 10000, "class/run_with_round_of_2plus_fills": 50,
               "class/expiries_on_both_sides_in_one_clock_update": 30, "class/run_with_2plus_sessions": 50,
               "gt_fills": 2000, "gt_expiries": 500, "gt_cancels": 500, "steps_checked": 2000,
-              "runs_repeated_without_logger": 30},
+              "runs_repeated_without_logger": 30,
+              "class/crowd_run_with_bulk_expiries_repeated_without_logger": 5},
     "thorough": {"event_records_matched": 300000, "class/run_with_round_of_2plus_fills": 1500,
                  "class/expiries_on_both_sides_in_one_clock_update": 800, "class/run_with_2plus_sessions": 1500,
                  "gt_fills": 60000, "gt_expiries": 15000, "gt_cancels": 15000, "steps_checked": 60000,
-                 "runs_repeated_without_logger": 900},
+                 "runs_repeated_without_logger": 900,
+                 "class/crowd_run_with_bulk_expiries_repeated_without_logger": 300},
 }
 
 
@@ -29,6 +31,8 @@ def extra_checks(case, res, out, mon):
 
     out2 = run_runner_case(case, [], with_logger=False)
     res.count("runs_repeated_without_logger")
+    if case.get("crowd"):
+        res.count("class/crowd_run_with_bulk_expiries_repeated_without_logger")
     a = [(l.market_id, l.time, l.buy_order_id, l.sell_order_id, l.price, l.volume) for l in out.fills]
     b = [(l.market_id, l.time, l.buy_order_id, l.sell_order_id, l.price, l.volume) for l in out2.fills]
     if out2.error is not None or a != b:
